@@ -17,6 +17,7 @@
     a cascading Entity._delete_ refused after its nested deletes ran (undo_list / undo_funcs)   -> cascadeFail / undoDelete
     Entity._save_created_ (auto pk: `setdefault(new_id, obj)`), _update_dbvals_, _save_updated_, _save_deleted_ -> saveCreated/…
     EntityMeta._find_in_cache_ (pk, simple keys, composite keys, status / value checks, read bits) -> find
+    … its 4th way, through the reverse one-to-one attribute of a search value                  -> findVia
     EntityProxy._get_object                                         -> proxy
 
   Key values are tuples (`List Int`); a simple key is the 1-tuple.  `None` / not-loaded parts exempt a key (`kv = none`).
@@ -481,6 +482,21 @@ def find (sch : Schema) (s : Sess) (cls : Nat) (pk : Option KeyVal) (kw : List (
         | (ob', some e) => ({ s with obj := setObj s.obj o ob' }, { err := some e })
         | (ob', none) => ({ s with obj := setObj s.obj o (setRbits ob' (kw.map (·.1))) }, { yield := some o })
 
+/-- `_find_in_cache_` when the primary-key index and every key index miss but a search value is an object whose reverse
+    ONE-TO-ONE attribute is loaded (`obj = reverse.__get__(val)`): the candidate `via` comes from that relationship (an input
+    here); the class / status / value checks are the same, and the primary key asked for is one of the compared values -/
+def findVia (sch : Schema) (s : Sess) (cls : Nat) (pk : KeyVal) (via : ObjId) (kw : List (Nat × Int)) : Sess × Res :=
+  if via ≥ s.n then (s, { err := some .badOp })
+  else
+    let ob := s.obj via
+    if sch.parent.length > 1 && ob.isSeed then (s, { err := some .needLoad })
+    else if sch.parent.length > 1 && !sch.isSub ob.cls cls then (s, { err := some .objectNotFound })
+    else if ob.status = .markedToDelete then (s, { err := some .objectNotFound })
+    else if ob.pk ≠ some pk then (s, { err := some .objectNotFound })        -- `if val != attr.__get__(obj)` for a pk attribute
+    else match findCheck ob kw with
+      | (ob', some e) => ({ s with obj := setObj s.obj via ob' }, { err := some e })
+      | (ob', none) => ({ s with obj := setObj s.obj via (setRbits ob' (kw.map (·.1))) }, { yield := some via })
+
 /-- `EntityProxy._get_object` for a proxy made from object `o`: `cache.indexes[pk_attrs][pkval]` if present -/
 def proxy (s : Sess) (o : ObjId) : Sess × Res :=
   if o ≥ s.n then (s, { err := some .badOp })
@@ -510,6 +526,7 @@ inductive Op
   | proxy (o : ObjId)
   | markRead (os : List ObjId) (attrs : List Nat)
   | cascadeFail (children : List ObjId)
+  | findVia (cls : Nat) (pk : KeyVal) (via : ObjId) (kw : List (Nat × Int))
 deriving Repr
 
 def stepR (sch : Schema) (s : Sess) : Op → Sess × Res
@@ -526,6 +543,7 @@ def stepR (sch : Schema) (s : Sess) : Op → Sess × Res
   | .proxy o => proxy s o
   | .markRead os attrs => markRead s os attrs
   | .cascadeFail cs => cascadeFail sch s cs
+  | .findVia c pk via kw => findVia sch s c pk via kw
 
 def step (sch : Schema) (s : Sess) (op : Op) : Sess := (stepR sch s op).1
 
